@@ -26,6 +26,7 @@ var csteps = []cstep{
 	{"fieldadd", "st.a = st.a + 3"},
 	{"sliceadd", "xs[0] = xs[0] + 5"},
 	{"structvar", "sv.a = sv.a + v + 1"},
+	{"ptrslice_method", "as[0].add(v + 1)"},
 }
 
 type lockStyle struct {
@@ -36,6 +37,8 @@ var lockStyles = []lockStyle{
 	{"local", "mu := new(sync.Mutex)", "mu.Lock()", "mu.Unlock()", "mu"},
 	{"field", "sh := &CSh{mu: new(sync.Mutex)}", "sh.mu.Lock()", "sh.mu.Unlock()", "sh.mu"},
 	{"varlocal", "var mu *sync.Mutex\n\tmu = new(sync.Mutex)", "mu.Lock()", "mu.Unlock()", "mu"},
+	{"slice", "locks := make([]*sync.Mutex, 2)\n\tlocks[1] = new(sync.Mutex)", "locks[1].Lock()", "locks[1].Unlock()", "locks[1]"},
+	{"nested_field", "sh2 := &CSh2{in: &CSh{mu: new(sync.Mutex)}}", "sh2.in.mu.Lock()", "sh2.in.mu.Unlock()", "sh2.in.mu"},
 }
 
 type joinStyle struct {
@@ -59,6 +62,21 @@ func joinStyles(ls lockStyle) []joinStyle {
 			func(k int) string {
 				return fmt.Sprintf("%s\n\tfor done < %d {\n\t\tcond.Wait()\n\t}\n\t%s", ls.lock, k, ls.unlock)
 			}},
+		// the condition of the wait loop is a field behind a pointer that is never reassigned
+		{"latch_field", func(k int) string {
+			return fmt.Sprintf("lt := &CLatch{mu: %s, cond: sync.NewCond(%s), pending: %d}", ls.expr, ls.expr, k)
+		},
+			ls.lock + "\n\t\tlt.pending = lt.pending - 1\n\t\tlt.cond.Broadcast()\n\t\t" + ls.unlock,
+			func(k int) string {
+				return fmt.Sprintf("%s\n\tfor lt.pending > 0 {\n\t\tlt.cond.Wait()\n\t}\n\t%s", ls.lock, ls.unlock)
+			}},
+		{"flag_field", func(k int) string {
+			return fmt.Sprintf("lt := &CLatch{mu: %s, cond: sync.NewCond(%s), pending: %d}", ls.expr, ls.expr, k)
+		},
+			ls.lock + "\n\t\tlt.pending = lt.pending - 1\n\t\tif lt.pending == 0 {\n\t\t\tlt.ready = true\n\t\t}\n\t\tlt.cond.Signal()\n\t\t" + ls.unlock,
+			func(k int) string {
+				return fmt.Sprintf("%s\n\tfor !lt.ready {\n\t\tlt.cond.Wait()\n\t}\n\t%s", ls.lock, ls.unlock)
+			}},
 		{"cond_timeout", func(k int) string { return "cond := sync.NewCond(" + ls.expr + ")\n\tvar done uint64 = 0" },
 			ls.lock + "\n\t\tdone = done + 1\n\t\t" + ls.unlock,
 			func(k int) string {
@@ -74,6 +92,21 @@ type CSt struct {
 
 type CSh struct {
 	mu *sync.Mutex
+}
+
+type CSh2 struct {
+	in *CSh
+}
+
+type CLatch struct {
+	mu      *sync.Mutex
+	cond    *sync.Cond
+	pending uint64
+	ready   bool
+}
+
+func (s *CSt) add(d uint64) {
+	s.a = s.a + d
 }
 `
 
@@ -91,11 +124,11 @@ func ConcProgs(tier string) []ConcProg {
 	seen := map[string]bool{}
 	steps := csteps
 	if tier == "quick" {
-		steps = append(append([]cstep{}, csteps[:4]...), csteps[6], csteps[7])
+		steps = append(append([]cstep{}, csteps[:4]...), csteps[6], csteps[7], csteps[8])
 	}
 	add := func(ls lockStyle, js joinStyle, t1, t2 []cstep, main []cstep, shape string) {
 		k := 1
-		if t2 != nil || shape == "loop" {
+		if t2 != nil || shape == "loop" || shape == "spawner" {
 			k = 2
 		}
 		ids := func(ss []cstep) string {
@@ -111,7 +144,7 @@ func ConcProgs(tier string) []ConcProg {
 		}
 		seen[name] = true
 		var sb strings.Builder
-		fmt.Fprintf(&sb, "func %s() (uint64, uint64) {\n\t%s\n\tvar v uint64 = 0\n\tst := &CSt{a: 0}\n\txs := make([]uint64, 1)\n\tvar sv CSt\n\t%s\n", name, ls.decl, js.setup(k))
+		fmt.Fprintf(&sb, "func %s() (uint64, uint64) {\n\t%s\n\tvar v uint64 = 0\n\tst := &CSt{a: 0}\n\txs := make([]uint64, 1)\n\tvar sv CSt\n\tas := make([]*CSt, 1)\n\tas[0] = st\n\t%s\n", name, ls.decl, js.setup(k))
 		thread := func(ss []cstep) {
 			sb.WriteString("\tgo func() {\n")
 			for _, s := range ss {
@@ -128,6 +161,16 @@ func ConcProgs(tier string) []ConcProg {
 		case "loop":
 			// two goroutines spawned from a loop, each adding its own (copied) index
 			fmt.Fprintf(&sb, "\tfor i := uint64(0); i < 2; i++ {\n\t\tj := i\n\t\tgo func() {\n\t\t\t%s\n\t\t\tv = v*2 + j + 1\n\t\t\t%s\n\t\t\t%s\n\t\t}()\n\t}\n", ls.lock, ls.unlock, strings.ReplaceAll(js.done, "\n\t\t", "\n\t\t\t"))
+		case "nested":
+			// the critical sections sit in a helper closure inside the goroutine's closure (a literal in a literal)
+			sb.WriteString("\tgo func() {\n\t\tstep := func() {\n")
+			for _, s := range t1 {
+				sb.WriteString(locked(ls, s, 3))
+			}
+			sb.WriteString("\t\t}\n\t\tstep()\n\t\t" + js.done + "\n\t}()\n")
+		case "spawner":
+			// a closure that spawns the goroutine; its parameter and the shared variables are read two levels down
+			fmt.Fprintf(&sb, "\tvar limit uint64 = 5\n\tstart := func(d uint64) {\n\t\tgo func() {\n\t\t\t%s\n\t\t\tif d < limit {\n\t\t\t\tv = v + d\n\t\t\t}\n\t\t\t%s\n\t\t\t%s\n\t\t}()\n\t}\n\tstart(1)\n\tstart(2)\n", ls.lock, ls.unlock, strings.ReplaceAll(js.done, "\n\t\t", "\n\t\t\t"))
 		case "underif":
 			sb.WriteString("\tif v == 0 {\n")
 			sb.WriteString("\t\tgo func() {\n")
@@ -167,6 +210,8 @@ func ConcProgs(tier string) []ConcProg {
 				}
 			}
 			add(ls, js, nil, nil, nil, "loop")
+			add(ls, js, []cstep{steps[0], steps[1]}, nil, nil, "nested")
+			add(ls, js, nil, nil, nil, "spawner")
 			add(ls, js, []cstep{steps[0]}, nil, nil, "underif")
 			// two goroutines for every lock/join style
 			add(ls, js, []cstep{steps[0]}, []cstep{steps[2]}, nil, "plain")
